@@ -702,6 +702,12 @@ class _SimWriter(io.StringIO):
     def write(self, s):
         sim = Sim.current
         data = s.encode()
+        if sim is not None and sim.crash_wcall is not None:
+            k = sim.ordinal("fs_write_call")
+            if k == sim.crash_wcall:  # killed between two write() calls (e.g. exactly on a line boundary)
+                sim.fired["crash_write"] += 1
+                sim.event("crash_before_write_call", _real_os.path.basename(self._path), k)
+                raise SimCrash("killed before write() call %d" % k)
         if sim is not None:
             for budget, kind in ((sim.crash_after, "crash"), (sim.enospc_after, "enospc")):
                 if budget is not None and sim.bytes_written + len(data) > budget:
